@@ -110,6 +110,27 @@ def skeleton_programs(maxn):
                     yield sk, placement, Program("app", main, [counter], [s])
 
 
+def loop_header_programs():
+    """Break / Continue / Return in every position of a loop HEADER (For: init, condition, step; While: condition) and body.
+    The compiler may refuse such programs with one of its own errors; it must not die."""
+    import itertools
+    kinds = ["pop", "break", "continue", "ret"]
+
+    def st(k):
+        return {"pop": ("op", "PopU", [("int", 1)]), "break": ("break",), "continue": ("continue",), "ret": ("ret", ("int", 1))}[k]
+
+    def cond(k):
+        return ("int", 1) if k == "pop" else ("seq", [st(k), ("int", 1)])
+    for a, b, c, dd in itertools.product(kinds, repeat=4):
+        yield f"for/{a}/{b}/{c}/{dd}", Program("app", ("seq", [("for", st(a), cond(b), st(c), st(dd)), ("approve",)]), [])
+    for b, dd in itertools.product(kinds, repeat=2):
+        yield f"while/{b}/{dd}", Program("app", ("seq", [("while", cond(b), st(dd)), ("approve",)]), [])
+    # the same inside an outer loop (the inner header's Continue belongs to the inner loop)
+    for b, c in itertools.product(kinds, repeat=2):
+        inner = ("for", st("pop"), cond(b), st(c), st("pop"))
+        yield f"nested/{b}/{c}", Program("app", ("seq", [("while", ("txn", "Fee"), ("seq", [inner, ("break",)])), ("approve",)]), [])
+
+
 def option_sets(version, has_sub):
     outs = [{}]
     outs.append({"scratch_slots": True})
@@ -187,6 +208,9 @@ def run(tier: str) -> int:
         if len(samples) < 3 and nsk % 97 == 1:
             samples.append({"skeleton": repr(sk), "placement": placement})
     stats["skeletons"] = nsk
+    for name, prog in loop_header_programs():
+        for v in ([2, 6, 9] if tier == "quick" else versions):
+            judge(prog, v, {}, False, "loop-header", {"case": name})
 
     # ---- (b) random well-typed programs, model outcome class vs real outcome class
     nrand = 260 if tier == "quick" else 4000
